@@ -77,13 +77,27 @@ def gen_cases(ctx):
     return out
 
 
-def run_child(binpath, entry, start):
+def run_child(binpath, entry, start, stderr_mode=None):
+    """stderr_mode: None = captured; "full" = /dev/full (every write fails with ENOSPC); "closed" = a pipe whose reader
+    is gone (EPIPE) — an `abort` path that prints first must still end in SIGABRT"""
     env = dict(os.environ)
     env["RUST_BACKTRACE"] = "0"
     try:
-        p = subprocess.run([binpath, entry, str(start)], stdout=subprocess.PIPE, stderr=subprocess.PIPE,
-                           timeout=60, text=True, errors="replace", env=env)
-        rc, out, err = p.returncode, p.stdout, p.stderr
+        if stderr_mode is None:
+            p = subprocess.run([binpath, entry, str(start)], stdout=subprocess.PIPE, stderr=subprocess.PIPE,
+                               timeout=60, text=True, errors="replace", env=env)
+            rc, out, err = p.returncode, p.stdout, p.stderr
+        else:
+            if stderr_mode == "full":
+                fd = os.open("/dev/full", os.O_WRONLY)
+            else:
+                r_, fd = os.pipe()
+                os.close(r_)
+            try:
+                p = subprocess.run([binpath, entry, str(start)], stdout=subprocess.PIPE, stderr=fd, timeout=60, text=True, errors="replace", env=env)
+            finally:
+                os.close(fd)
+            rc, out, err = p.returncode, p.stdout, "[stderr was %s]" % stderr_mode
     except subprocess.TimeoutExpired:
         rc, out, err = 124, "", "[timeout]"
     obs = {"rc": rc, "stdout": out.strip().split("\n") if out.strip() else [], "stderr_tail": err.strip()[-400:],
@@ -229,6 +243,17 @@ def run(ctx):
     r2, _ = correspondence(ctx, rcases, rbins, drv, "release")
     res += r2
     ctx.coverage["model_facts"] = facts_line
+    # hostile stderr: the abort must not depend on being able to print (a diagnostic printed before aborting can panic)
+    hostile = []
+    with ThreadPoolExecutor(max_workers=min(16, (os.cpu_count() or 4))) as ex:
+        hc = [(cfg, e, s0, md) for cfg in sorted(CONFIGS) for e in ENTRIES for s0 in (ISIZE_MAX + 1, USIZE_MAX - 1, USIZE_MAX) for md in ("full", "closed")]
+        hobs = list(ex.map(lambda c: run_child(bins[c[0]], c[1], c[2], c[3]), hc))
+    for c, o in zip(hc, hobs):
+        m = monitor(c[2], o)
+        if m:
+            hostile.append((c, o, m))
+    ctx.oblige("faults:abort-with-unwritable-stderr", not hostile, "%d cases" % len(hostile))
+    ctx.coverage["hostile_stderr_cases"] = len(hc)
 
     for cfg in CONFIGS:
         sub = [r for r in res if r["case"][0] == cfg]
@@ -265,6 +290,15 @@ def run(ctx):
     })
 
     # ---- verdict --------------------------------------------------------------------------------
+    if hostile and not viol:
+        c, o, m = hostile[0]
+        body = ["C16 violated by a concrete child-process run with an UNWRITABLE stderr (%d of %d such runs):" % (len(hostile), len(hc)), "",
+                "config: %s   argv: ovf %s %d   stderr: %s" % (c[0], c[1], c[2], "/dev/full (ENOSPC on every write)" if c[3] == "full" else "a pipe whose reader is gone (EPIPE)"),
+                "observed status: %s" % o["status"], "observed stdout: %s" % " | ".join(o["stdout"]), "", "property clauses violated:"]
+        body += ["  - " + x for x in m]
+        body += ["", DEMAND, "replay by hand: <harness>/ovf %s %d 2>/dev/full ; echo $?" % (c[1], c[2])]
+        ctx.violation("child", "\n".join(body), True)
+        return
     if viol:
         # smallest failing input first: prefer std, then the smallest start count
         viol.sort(key=lambda r: (r["case"][0] != "std", r["case"][2], r["case"][1]))
